@@ -422,11 +422,15 @@ def main(prop, tier):
     canaries = json.load(open(os.path.join(VERIF, 'contracts/parser_canaries.json')))
     if tier == 'quick':
         canaries = [c for c in canaries if c['tier'] == 'quick']
-    early = cf.ThreadPoolExecutor(max_workers=2)
+    early = cf.ThreadPoolExecutor(max_workers=3)
     fut_native = early.submit(native_bounded, prop, tier)
     # the Kani stage does not depend on the Verus unit either; it starts with the cross-check shapes (quick tier) and is
     # repeated with the full set only if the tree builder turns out not to be verifiable in the unit
     fut_bt_early = early.submit(run_tree_builder, tier, True) if prop == 'C01' else None
+    # side unit (C01): the trivia-filter statement of parse_module establishes the two facts verif_parse takes as `requires`
+    import side_unit
+    fut_pmod = early.submit(side_unit.run, 'pmod') if prop == 'C01' else None
+    fut_pmodc = early.submit(side_unit.canary, 'pmod', side_unit.UNITS['pmod']['canaries'][0], 0) if prop == 'C01' else None
     try:
         ex, fns, loops, text, linemap, info, unit, res0 = verify_with_inference(REPO, os.path.join(sd, 'unit'))
     except (AnchorLost, weave.SpecError) as e:
@@ -570,13 +574,34 @@ def main(prop, tier):
             json.dump(r, open(path, 'w'), indent=1)
         violations.append((path, w is not None))
 
+    pmod = pmodc = None
+    if fut_pmod:
+        try:
+            pmod, pmodc = fut_pmod.result(), fut_pmodc.result()
+        except Undecided as e:
+            pmod, pmodc = {'unit': 'pmod', 'status': 'undecided', 'why': str(e)[:400]}, None
+        if pmod['status'] == 'failed':
+            seen_fn = set()
+            for f in pmod['failures']:
+                if f['fn'] in seen_fn:
+                    continue
+                seen_fn.add(f['fn'])
+                path = write_replay(prop, f['id'], f['where'], 'verus 0.2026.09.13', '\n'.join(x['rendered'] for x in pmod['failures'] if x['fn'] == f['fn']), None,
+                                    './check %s --replay <this file>' % prop)
+                violations.append((path, False))
+        elif pmod['status'] == 'verified':
+            if pmod.get('reachability_guard') != 'rejected-as-required':
+                guard_problems.append('pmod unit: precondition reachability guard: %s' % pmod.get('reachability_guard'))
+            if pmodc and pmodc['status'] == 'NOT-TRIPPED':
+                guard_problems.append('pmod unit: canary not detected')
+
     wall = time.time() - t0
     n_obl = res['verified'] + res['errors']
     cov = {
         'obligations': n_obl,
         'discharged': res['verified'],
         'checker_cmd': res['cmd'] + '   (unit generated from /repo working tree by tools/extract_parser.py + tools/weave.py)',
-        'trusted_base': assumptions_found + [
+        'trusted_base': assumptions_found + ([('side unit pmod (C01): the trivia-filter statement of parse_module (R29) is %s - from "raw tokens carry token kinds only" it establishes, textually, the two facts verif_parse requires (token vector length == number of non-trivia raw tokens; every parser token has a token kind); assumed there: the standard meaning of Vec clone/into_iter/filter/collect (external_body helper whose body is that chain)' % (pmod['status'] if pmod['status'] != 'undecided' else 'UNDECIDED in this run (%s); the two facts stay assumptions' % pmod.get('why', '')[:200]))] if pmod else []) + [
             'Parser::error and Parser::nth are verified in place (error after R19: its closure with a reference-pattern parameter is desugared into a variable + let; nth on the R10-rewritten text); the Kani harnesses error_contract / nth_contract check the same contracts on the un-rewritten text, i.e. they validate R19 and R10; rowan::TextRange / TextSize are two-field stand-in structs (TextRange::empty, TextSize::from(u32) with their obvious meaning)',
             'token vector length + 8 <= usize::MAX (requires of verif_top / verif_parse; a Vec of 40-byte LexTokens cannot be longer than isize::MAX / 40)',
             'glue lines of parse_module that are not extracted: lexing (tokens_raw) and the trivia filter; from them verif_parse takes `tokens.len() == number of non-trivia raw tokens` and `every parser token has a token kind`',
@@ -596,6 +621,8 @@ def main(prop, tier):
         'inferred_contracts_for_functions_without_entry': info.get('inferred_contracts', {}),
         'inference_log': info.get('inference_log', []),
         'back_end': 'Verus 0.2026.09.13 / Z3',
+        'parse_module_glue_unit': ({k: v for k, v in pmod.items() if k != 'per_function_ms'} if pmod else None),
+        'parse_module_glue_unit_canary': pmodc,
         'solver_time_ms': res['smt_ms'],
         'verus_total_ms': res['total_ms'],
         'per_function_ms': {k: round(v['ms'], 1) for k, v in sorted(res['func_times'].items())},
